@@ -170,7 +170,7 @@ CHECKS["C09"] = {
     "required_reach": ["types/base.py:MetaType.__call__", "types/base.py:MetaType.read", "types/base.py:MetaType.reads",
                        "cstruct.py:cstruct.read", "types/base.py:_is_eof", "types/structure.py:UnionMetaType._read_fields",
                        "<compiled>"],
-    "required_cells": ["align:True", "align:False", "offsets", "dynamic-union", "top-level-union:static",
+    "required_cells": ["input-ends-inside-trailing-padding", "names-read-after-rebinding", "align:True", "align:False", "offsets", "dynamic-union", "top-level-union:static",
                        "top-level-union:dynamic", "form:T.reads(memoryview)",
                        "form:cs.read(name, BytesIO)", "char-shortcut", "direct:buffered-file",
                        "direct:unbuffered-file", "direct:BytesIO",
@@ -263,7 +263,7 @@ CHECKS["C13"] = {
                        "parser.py:TokenParser._struct", "parser.py:TokenParser._typedef", "parser.py:TokenParser._enum",
                        "parser.py:TokenParser._constant", "parser.py:TokenParser._parse_field_type",
                        "parser.py:TokenParser._names", "cstruct.py:cstruct.add_type", "cstruct.py:cstruct.resolve"],
-    "required_cells": ["tagged-typedef-declarators", "shared-local-names:split", "shared-local-names:one-load", "reordered", "split-loads", "builtin-aliases", "alias-chain", "unknown-alias", "cyclic-alias",
+    "required_cells": ["loads-with-differing-options", "tagged-typedef-declarators", "shared-local-names:split", "shared-local-names:one-load", "reordered", "split-loads", "builtin-aliases", "alias-chain", "unknown-alias", "cyclic-alias",
                        "keyword-like-field-names", "string-constants", "alias-replace", "boundary:line-ends",
                        "comment-replaces-whitespace", "define-without-value", "alias-of-array-or-pointer-redeclared"],
     "assumptions": ASSUME_COMMON,
@@ -385,7 +385,7 @@ CHECKS["C11"] = {
     "required_cells": ["pinned-witnesses", "align:True", "align:False", "shape:top", "shape:field", "shape:anon", "route:direct",
                        "route:nested-via-proxy", "route:nested-deep", "route:anonymous-struct-field",
                        "route:array-replace", "route:nested-union", "route:explicit-offset-member",
-                       "shape:explicit-offsets", "held-reference", "route:refused-assignment", "route:array-assigned-back",
+                       "shape:explicit-offsets", "held-reference", "route:refused-assignment", "route:refused-array-assignment", "route:copy-assigned", "route:array-assigned-back",
                        "route:refused-nested-assignment",
                        "route:structure-in-array-member", "defaults-and-falsy-values"],
     "assumptions": ASSUME_COMMON + ["an assignment writes the member's full encoding (its padding as zero) into the "
